@@ -43,8 +43,8 @@ class Case:
             v = v.__func__
         return v
 
-    def applies(self, **a):
-        f = self._get("applies")
+    def applies(this, a):
+        f = this._get("applies")
         return True if f is None else f(**a)
 
     def args(self, F):
@@ -59,30 +59,30 @@ class Case:
     def has_args(self):
         return self._get("args") is not None
 
-    def requires(self, **a):
-        f = self._get("requires")
+    def requires(this, a):
+        f = this._get("requires")
         return list(f(**a)) if f else []
 
-    def raises(self, **a):
+    def raises(this, a):
         out = []
-        for exc, label, cond in self._get("raises", []) or []:
+        for exc, label, cond in this._get("raises", []) or []:
             out.append((exc, label, cond(**a)))
         return out
 
     def has_value(self):
         return self._get("value") is not None
 
-    def value(self, **a):
-        return self._get("value")(**a)
+    def value(this, a):
+        return this._get("value")(**a)
 
-    def result(self, F, **a):
-        f = self._get("result")
+    def result(this, F, a):
+        f = this._get("result")
         if f is None:
-            raise KeyError(f"contract {self.qualname}[{self.name}] has neither value() nor result()")
+            raise KeyError(f"contract {this.qualname}[{this.name}] has neither value() nor result()")
         return f(F, **a)
 
-    def ensures(self, result, **a):
-        f = self._get("ensures")
+    def ensures(this, result, a):
+        f = this._get("ensures")
         return list(f(result, **a)) if f else []
 
     def loops(self):
@@ -104,9 +104,9 @@ class ContractEntry:
         else:
             self.cases = [Case(qualname, "default", ns, None)]
 
-    def select(self, **a):
-        for c in self.cases:
-            if c.applies(**a):
+    def select(this, a):
+        for c in this.cases:
+            if c.applies(a):
                 return c
         return None
 
